@@ -386,6 +386,9 @@ def context_ops():
         ops.append(("decode", 24, v, 0, 1))
     for k in range(len(constructors())):
         ops.append(("construct", k))
+    # a decoded object is edited in place by its receiver (frame bits, address numbers) - Frame objects are mutable
+    for t in context_targets(False, 0)[::2]:
+        ops.append(("vandal",) + tuple(t))
     return ops
 
 
@@ -402,6 +405,10 @@ def context_targets(quick, seed):
             ts.append((24, v, 0, mp))
     for v in (0x0000, 0x0100, 0x0200, 0x0305, 0x8205, 0x8311):     # gear short 0 / 1, group 1
         ts.append((16, v, 0, "no"))
+    for v in (0xA100, 0xA300, 0xA500, 0xA700, 0xA900, 0xAB00, 0xAD00, 0xB100, 0xB900, 0xBB00, 0xBD00, 0xC100, 0xC108):
+        ts.append((16, v, 0, "no"))            # special commands, with and without a parameter
+    for v in (0xC10000, 0xC10100, 0xC10200, 0xC13000, 0xC50000, 0xC1FF00):
+        ts.append((24, v, 0, "no"))            # 24-bit specials
     return ts
 
 
@@ -428,6 +435,10 @@ def _ctx_shard(arg):
         for t in targets:
             if op[0] == "construct":
                 cons[op[1]]()
+            elif op[0] == "vandal":
+                cv = dec(tuple(op[1:]))
+                if cv is not None:
+                    vandalise(cv, n)
             else:
                 dec(tuple(op[1:]))
             c = dec(t)
@@ -464,6 +475,11 @@ def run_context(case):
     op = case["before"]
     if op[0] == "construct":
         cons[op[1]]()
+    elif op[0] == "vandal":
+        cv = dec(tuple(op[1:]))
+        if cv is not None:
+            vandalise(cv, case.get("k", 0))
+            vandalise(cv, case.get("k", 0) + 3)
     else:
         dec(tuple(op[1:]))
     c1 = dec(t)
@@ -471,6 +487,63 @@ def run_context(case):
     if a != b:
         out.append(("C01:decode-depends-on-previous-operation", "decode of %r gives %r in isolation but %r directly after %r" % (t, a, b, op)))
     return out
+
+
+# ------------------------------------------- several results alive at once ----
+def alive_inputs():
+    ins = [tuple(op[1:]) for op in context_ops() if op[0] == "decode"][::3] + list(context_targets(False, 0))
+    # events without a map entry / of unimplemented types, in every scheme
+    for v in (0x068002, 0x1289A1, 0x028401, 0x7E8000, 0x021C55, 0x041C56, 0x807C01, 0xC01C02, 0x00FC03, 0x82FC04):
+        ins.append((24, v, 0, "no"))
+        ins.append((24, v, 0, 3))
+    seen = []
+    for t in ins:
+        if t not in seen:
+            seen.append(t)
+    return seen
+
+
+def run_alive(case):
+    """A program keeps the result of one decode (parks an event, queues a command) and decodes something else:
+    the kept object must still be what it was."""
+    out = []
+
+    def dec(t):
+        bits, v, dt, mp = t
+        return decode_check(bits, v, dt, None if mp == "no" else mp, mp != "no", out)
+    a, b = tuple(case["first"]), tuple(case["then"])
+    ca = dec(a)
+    if ca is None or out:
+        return out
+    before = fp(ca)
+    dec(b)
+    after = fp(ca)
+    if after != before or len(ca.frame) != a[0] or ca.frame.as_integer != a[1]:
+        out.append(("C01:earlier-result-changed-by-later-decode",
+                    "the object decoded from %r was %r; after decoding %r it is %r" % (a, before, b, after)))
+    return out
+
+
+def _alive_shard(arg):
+    k, nshards = arg
+    res = Result()
+    ins = alive_inputs()
+    n = 0
+    for i, a in enumerate(ins):
+        if i % nshards != k:
+            continue
+        for j, b in enumerate(ins):
+            if a == b or (j + i) % 6:
+                continue
+            n += 1
+            case = {"kind": "alive", "first": list(a), "then": list(b)}
+            for sig, msg in run_alive(case):
+                res.violation(sig, case, msg)
+    res.count(n)
+    res.nontrivial(n=n)
+    res.label("two-results-alive-pairs", n)
+    res.sample({"kind": "alive", "first": list(ins[0]), "then": list(ins[-1])}, cls="two results alive")
+    return res
 
 
 # ------------------------------------------------ Hypothesis histories ----
@@ -571,7 +644,8 @@ def run_history(ops):
     seen = {}
     order = []
     cons = constructors()
-    last = None
+    last = last_key = last_fp = None
+    kept = []
     from dali.device.helpers import DeviceInstanceTypeMapper
     command, frame = _load()
     grow = DeviceInstanceTypeMapper()
@@ -601,7 +675,9 @@ def run_history(ops):
                 return [("C01:decode-depends-on-map-object-history",
                          "24-bit %#x with the program's map (entries %r added over time) decodes %r, with a new map holding "
                          "the same entries %r" % (v, entries, fp(a), fp(b)))]
-            last = a
+            if last is not None:
+                kept.append((last, last_key, last_fp))
+            last, last_key, last_fp = a, (bits, v, 0, "grow"), fp(a)
             continue
         if op[0] == "vandalise":
             if last is not None:
@@ -619,13 +695,19 @@ def run_history(ops):
         if out:
             return out
         f = fp(c)
-        last = c
+        if last is not None:
+            kept.append((last, last_key, last_fp))
+        last, last_key, last_fp = c, key, f
         if key in seen:
             if seen[key] != f:
                 return [("C01:impure-decode", "decode of %r gave %r first and %r later in the same history" % (key, seen[key], f))]
         else:
             seen[key] = f
             order.append(key)
+    for (c, key, f) in kept[-12:]:
+        if fp(c) != f:
+            return [("C01:earlier-result-changed-by-later-decode", "the object decoded from %r was %r, at the end of the "
+                     "history it is %r" % (key, f, fp(c)))]
     return out
 
 
@@ -640,6 +722,8 @@ def run_case(case):
         return run_history(case["ops"])
     if kind == "context":
         return run_context(case)
+    if kind == "alive":
+        return run_alive(case)
     if kind == "import-history":
         res = _import_shard(case["name"])
         return [(s, v["msg"]) for s, v in res.violations.items()]
@@ -694,6 +778,7 @@ def run(ctx):
         shards.append(("odd", odd[k:k + 8]))
     ctx.pmap(_enum_shard, shards)
     ctx.pmap(_import_shard, sorted(IMPORT_HISTORIES))
+    ctx.pmap(_alive_shard, [(k, 16) for k in range(16)])
     cops = context_ops()
     per = (len(cops) + 15) // 16
     ctx.pmap(_ctx_shard, [(cops[k:k + per], q, s) for k in range(0, len(cops), per)])
